@@ -92,6 +92,20 @@ def record(sp, rs, k, thorough):
     mps, max_eig = app._output()
     mps = np.asarray(mps)
     max_eig = np.real(np.asarray(max_eig))
+    tie = 0
+    mps_rec = mps.copy()                 # the recovery / alignment clauses are evaluated on the run with the configured crop
+    if k % 3 == 0 and np.isfinite(max_eig).all():
+        # a crop threshold that some voxel's eigenvalue equals bit for bit (the run is repeated with the same random start): the
+        # statement is "zero wherever the eigenvalue does not EXCEED the threshold"
+        crop = float(np.sort(max_eig.ravel())[max_eig.size // 2])     # an attained value
+        np.random.seed(k)
+        app2 = mr.app.EspiritCalib(ksp, calib_width=calib_width, thresh=thresh, kernel_width=kernel_width, crop=crop, max_iter=max_iter, output_eigenvalue=True, show_pbar=False)
+        while not app2.alg.done():
+            app2.alg.update()
+        mps, max_eig = app2._output()
+        mps = np.asarray(mps)
+        max_eig = np.real(np.asarray(max_eig))
+        tie = int(np.sum(max_eig == crop))
     vn = np.sqrt((np.abs(mps) ** 2).sum(0))
     is_zero = (mps == 0).all(0)
     is_unit = np.abs(vn - 1) <= 1e-6
@@ -100,10 +114,10 @@ def record(sp, rs, k, thorough):
     misaligned = 0
     if synthetic:
         sl = tuple(slice(4, s - 4) for s in shape)     # interior of the field of view, as in the repository's own test
-        interior_err = float(np.max(np.abs(np.abs(mps[(slice(None),) + sl]) - np.abs(maps[(slice(None),) + sl]))))
+        interior_err = float(np.max(np.abs(np.abs(mps_rec[(slice(None),) + sl]) - np.abs(maps[(slice(None),) + sl]))))
         # alignment: the recovered magnitudes must fit the true maps better than the true maps displaced by one voxel along any
         # axis (a centre-convention slip on odd lengths shifts the maps by exactly one voxel)
-        rms = lambda ref: float(np.sqrt(np.mean((np.abs(mps[(slice(None),) + sl]) - np.abs(ref[(slice(None),) + sl])) ** 2)))
+        rms = lambda ref: float(np.sqrt(np.mean((np.abs(mps_rec[(slice(None),) + sl]) - np.abs(ref[(slice(None),) + sl])) ** 2)))
         e0 = rms(maps)
         es = min(rms(np.roll(maps, sgn, axis=ax + 1)) for ax in range(ndim) for sgn in (-1, 1))
         # (2-D only: in the 3-D configurations the interior is 4-5 voxels wide and the maps vary too slowly for the comparison
@@ -118,7 +132,7 @@ def record(sp, rs, k, thorough):
     # 3-D synthetic runs: 3 % (measured worst 0.9 % on even and odd shapes; a one-voxel displacement leaves 5.6 %)
     recover_tol = 15000000 if (synthetic and calib_width == 24) else (30000000 if ndim == 3 else 60000000)
     return {"id": "esp%d" % k, "max_iter": max_iter, "synthetic": int(synthetic), "recover_tol": recover_tol, "ev": ev,
-            "meta": {"shape": list(shape), "coils": nc, "calib_width": calib_width, "kernel_width": kernel_width, "thresh": thresh, "crop": crop, "synthetic": synthetic, "ksp_unchanged": pure}}
+            "meta": {"shape": list(shape), "coils": nc, "calib_width": calib_width, "kernel_width": kernel_width, "thresh": thresh, "crop": crop, "synthetic": synthetic, "ksp_unchanged": pure, "voxels_tied_with_crop": tie}}
 
 
 CASES = [("<<<<2, 0>>, <<0, 1>>>>", 2), ("<<<<2, 1>>, <<1, 2>>>>", 3), ("<<<<1, 1>>, <<1, 1>>>>", 2), ("<<<<2, 0>>, <<0, 2>>>>", 2), ("<<<<2, 2>>, <<2, 2>>>>", 4),
